@@ -519,6 +519,116 @@ def real_method(fn, triple, measure, dtype):
     return {"res": "ok", "shift": val(s), "cost": val(c), "flag": int(f)}
 
 
+def random_approx_case(rng):
+    """a right map as the approximate disparity step leaves it (integer disparities of [-dmax, -dmin], the matched left column in
+    the image, otherwise the pixel is invalid) on a left cost volume"""
+    sp = rng.choice([1, 1, 2, 4])
+    dmin = rng.choice([-2, -1, 0])
+    dmax = dmin + rng.choice([1, 2, 3])
+    nd = (dmax - dmin) * sp + 1
+    rows, cols = rng.randrange(1, 3), rng.randrange(3, 8)
+    cv = [[[None if rng.random() < 0.06 else Fraction(rng.randrange(0, 12), rng.choice([1, 1, 2])) for _ in range(nd)]
+           for _ in range(cols)] for _ in range(rows)]
+    disp, mask = [], []
+    for _ in range(rows):
+        drow, mrow = [], []
+        for c in range(cols):
+            flag = rng.choice([0, 0, 0, 0, 0, 4, 16, 1, 64, 2048])
+            d = -Fraction(rng.randrange(dmin, dmax + 1))
+            if not 0 <= c + d <= cols - 1:
+                flag |= 1
+            drow.append(d)
+            mrow.append(flag)
+        disp.append(drow)
+        mask.append(mrow)
+    return {"kind": "approx", "method": rng.choice(["vfit", "quadratic"]), "measure": rng.choice(["min", "max"]), "subpix": sp,
+            "dmin": dmin, "dmax": dmax, "cv": [[[wire(v) for v in px] for px in row] for row in cv],
+            "disp": [[wire(v) for v in row] for row in disp], "mask": mask}
+
+
+def check_approx_case(ctx, report, case, label):
+    """the REAL `loop_approximate_refinement` on one right map; the specification of the approximation (Model/Refinement.lean:
+    `apxClassify` / `apxClauses`, re-stated here clause by clause — each is a one-liner) evaluated on what it returns"""
+    import math
+    import warnings
+
+    import numpy as np
+    from pandora import refinement as refinement_pkg
+
+    sp, dmin, dmax, is_max = int(case["subpix"]), int(case["dmin"]), int(case["dmax"]), case["measure"] == "max"
+    cv = [[[frac(v) for v in px] for px in row] for row in case["cv"]]
+    disp = [[frac(v) for v in row] for row in case["disp"]]
+    mask = case["mask"]
+    ncol = len(cv[0])
+    ref = refinement_pkg.AbstractRefinement(**{"refinement_method": case["method"]})
+    nanf = float("nan")
+    try:
+        with warnings.catch_warnings():
+            warnings.simplefilter("ignore")
+            itp, nd_, nm_ = ref.loop_approximate_refinement(
+                np.array([[[nanf if v is None else float(v) for v in px] for px in row] for row in cv], dtype=np.float32),
+                np.array([[nanf if v is None else float(v) for v in row] for row in disp], dtype=np.float32),
+                np.array(mask, dtype=np.uint16), dmin, dmax, sp, case["measure"], ref.refinement_method)
+    except Exception as exc:  # pylint: disable=broad-except
+        add_failure(report, "approx:total", "approx_raises", case, {"exception": type(exc).__name__}, str(exc)[:120])
+        report.case(json.dumps(case, sort_keys=True), True, None)
+        return
+    tol = float(TOL_SCALE) * 13
+    for r, drow in enumerate(disp):
+        for c, d in enumerate(drow):
+            flag = mask[r][c]
+            o_c, o_d, o_f = float(itp[r, c]), float(nd_[r, c]), int(nm_[r, c])
+            impl = {"row": r, "col": c, "coeff": o_c if not math.isnan(o_c) else "nan", "disp": o_d, "mask": o_f}
+
+            def fail(clause, trigger, detail):
+                focus = dict(case)
+                focus["focus"] = [r, c]
+                add_failure(report, "approx:" + clause, trigger, focus, impl, detail)
+
+            if flag & 963:
+                report.hit("approx:invalid_untouched")
+                if not (o_d == float(d) and o_f == flag):
+                    fail("invalid_untouched", "approx_invalid", f"invalid right pixel changed: d {d} -> {o_d}, flag {flag} -> {o_f}")
+                continue
+            diag = c + int(d)
+            if not (-dmax <= d <= -dmin and 0 <= diag < ncol):
+                continue
+            j = int((-d - dmin) * sp)
+            centre = cv[r][diag][j]
+            if centre is None:
+                if not (o_d == float(d) and o_f == flag):
+                    fail("centre_nan_untouched", "approx_centre_nan", "NaN matched cost: pixel changed")
+                continue
+            ends = d == -dmin or d == -dmax or diag == 0 or diag == ncol - 1
+            refine = False
+            if not ends:
+                c0, c2 = cv[r][diag - 1][j + sp], cv[r][diag + 1][j - sp]
+                if c0 is not None and c2 is not None:
+                    refine = (centre >= c0 and centre >= c2) if is_max else (centre <= c0 and centre <= c2)
+            if not refine:
+                report.hit("approx:stopped_iff")
+                if not (o_d == float(d) and (o_f >> 3) & 1 == 1):
+                    fail("stopped_iff", "approx_stopped", f"not refinable: expected d unchanged and bit 3, got d {o_d}, flag {o_f}")
+                if not (o_f % 8 == flag % 8 and o_f // 16 == flag // 16):
+                    fail("only_bit3", "approx_stopped", f"flag {flag} -> {o_f}")
+                if math.isnan(o_c) or abs(o_c - float(centre)) > tol:
+                    fail("coeff_is_matched_cost", "approx_stopped",
+                         f"coefficient {o_c} is not the cost {centre} of the match cv[{r}, {diag}, {j}]")
+            else:
+                report.hit("approx:shift_le_half")
+                if o_f != flag:
+                    fail("stopped_iff", "approx_refined", f"refinable pixel flagged: {flag} -> {o_f}")
+                if math.isnan(o_d) or abs(o_d - float(d)) > 0.5 / sp + tol:
+                    fail("shift_le_half", "approx_refined", f"d {d} -> {o_d}, subpix {sp}")
+                elif not (-dmax - tol <= o_d <= -dmin + tol):
+                    fail("inside_interval", "approx_refined", f"d {d} -> {o_d} outside [{-dmax}, {-dmin}]")
+                worse = math.isnan(o_c) or ((o_c < float(centre) - tol) if is_max else (o_c > float(centre) + tol))
+                if worse:
+                    fail("coeff_not_worse", "approx_refined",
+                         f"coefficient {o_c} worse than the cost {centre} of the match cv[{r}, {diag}, {j}]")
+    report.case(hashlib.sha256(json.dumps(case, sort_keys=True).encode()).hexdigest()[:16], True, None)
+
+
 def loop_cross_check(ctx, report, status):
     """T12p: the REAL compiled `loop_refinement` / `loop_approximate_refinement` (with the real compiled method) on small maps,
     against the exact interpreter of the per-pixel body translator/gen_kernels_refine.py reads from the source (the reading
@@ -752,6 +862,8 @@ def run(ctx, report, status):
         check_case(ctx, report, case, label, captured=captured)
     kernel_cross_check(ctx, report, status)  # last: the streams above keep their cases for a given seed
     loop_cross_check(ctx, report, status)
+    for _ in range(ctx.n(60, 600)):  # the right-map approximation: specification on the real loop_approximate_refinement
+        check_approx_case(ctx, report, random_approx_case(rng), "approx")
 
 
 def search(ctx, report, status):
@@ -778,6 +890,10 @@ def search(ctx, report, status):
         check_case(ctx, sub, case, "search:exhaustive")
         if first_unknown():
             return first_unknown()
+    for _ in range(300):
+        check_approx_case(ctx, sub, random_approx_case(ctx.rng), "search:approx")
+        if first_unknown():
+            return first_unknown()
     for _ in range(1500):
         check_case(ctx, sub, random_case(ctx.rng), "search:random")
         if first_unknown():
@@ -791,7 +907,10 @@ def replay(ctx, report, path):
     case = data.get("input", data)
     case = {k: v for k, v in case.items() if k != "focus"}
     detect_variant(report)
-    check_case(ctx, report, case, "replay")
+    if case.get("kind") == "approx":
+        check_approx_case(ctx, report, case, "replay")
+    else:
+        check_case(ctx, report, case, "replay")
     known = {(k.get("clause"), k.get("trigger")) for k in core.load_known(PROP)}
     for fl in report.failures:
         tag = "known finding" if (fl["clause"], fl["trigger"]) in known else "spec failure"
